@@ -34,7 +34,7 @@ def gen_case(ctx):
     shape = r.random()
     if shape < 0.1 and not join:
         # EXCEPT with columns spelled by name (also over a zero-row table: the names must still resolve)
-        idxs = sorted(set(r.randint(0, na - 1) for _ in range(r.randint(1, 2))))
+        idxs = sorted(set(r.randint(0, na - 1) for _ in range(r.randint(1, 2))))[:na - 1]      # at least one column stays: a zero-width record has no CSV form
         q = 'select * except %s' % ', '.join(name_of('a', i, hdr) for i in idxs)
         qa = {'kind': ('except', idxs), 'where': None, 'join': None}
         return {'q': q, 'qa': qa, 'hdr': hdr, 'A': A, 'hdrB': None, 'B': None, 'hq': '(1 (%s) 0)' % ' '.join(map(str, idxs)), 'expect_fail': False}
